@@ -423,8 +423,8 @@ def check_case(case, ctx):
             cl.append("pp_gas_not_asserted")
         if p["moles"] == 0.0:
             cl.append("pp_zero_start")
-    if case.get("exch", {}).get("nex"):
-        cl.append("excluded_trigger:exchanger_tied_to_mineral_whose_ion_is_absent")
+    if case.get("exch", {}).get("nex") or case.get("surf", {}).get("nex"):
+        cl.append("excluded_trigger:sites_tied_to_mineral_with_element_absent_from_solution")
     if "exch" in case:
         cl.append("exch_" + case["exch"]["kind"])
     if "surf" in case:
